@@ -451,6 +451,17 @@ def group(stmt):
     return stmt
 
 
+def _is_delimiter(tlist, token):
+    """Returns ``True`` if *token* is the opening or closing token of the
+    bracket or block group *tlist* (e.g. the parentheses of a Parenthesis or
+    the CASE / END of a Case).  Those tokens must stay direct children."""
+    if token.is_group or not isinstance(
+            tlist, (sql.Parenthesis, sql.SquareBrackets, sql.Case,
+                    sql.If, sql.For, sql.Begin)):
+        return False
+    return token is tlist.tokens[0] or token.match(*tlist.M_CLOSE)
+
+
 def _group(tlist, cls, match,
            valid_prev=lambda t: True,
            valid_next=lambda t: True,
@@ -477,10 +488,14 @@ def _group(tlist, cls, match,
             nidx, next_ = tlist.token_next(tidx)
             if prev_ and valid_prev(prev_) and valid_next(next_):
                 from_idx, to_idx = post(tlist, pidx, tidx, nidx)
-                grp = tlist.group_tokens(cls, from_idx, to_idx, extend=extend)
+                # never move the delimiters of tlist itself into the group
+                if not any(_is_delimiter(tlist, t)
+                           for t in tlist.tokens[from_idx:to_idx + 1]):
+                    grp = tlist.group_tokens(cls, from_idx, to_idx,
+                                             extend=extend)
 
-                tidx_offset += to_idx - from_idx
-                pidx, prev_ = from_idx, grp
-                continue
+                    tidx_offset += to_idx - from_idx
+                    pidx, prev_ = from_idx, grp
+                    continue
 
         pidx, prev_ = tidx, token
